@@ -145,6 +145,8 @@ def main(argv):
     t0 = time.monotonic()
     from gfv import core
 
+    if not os.environ.get("GFV_KEEP_STDERR"):
+        sys.stderr = open(os.devnull, "w")  # the GTF importer reports progress on stderr
     try:
         core.import_gffutils()
         mod = _load(prop)
